@@ -168,6 +168,10 @@ fn req_case(cx: &mut Ctx, ops: &[String]) {
             cx.nontrivial(&line);
             if comparable && s != want.join(" / ") {
                 cx.oracle_fail("C19", &line, &format!("accessors show {} but the raw-state reference gives {}", s, want.join(" / ")));
+                if ops.iter().any(|o| o.starts_with("cf ") || o == "getcf") {
+                    // the content-format name <-> number mapping as seen through a message (C05)
+                    cx.oracle_fail("C05", &line, &format!("content format through the message accessors: {} but the registry gives {}", s, want.join(" / ")));
+                }
             }
         }
     }
@@ -286,6 +290,24 @@ pub fn run(cx: &mut Ctx) {
         req_case(cx, &[format!("cf {}", other), format!("cf {}", c), "getcf".into(), "raw 12".into()]);
         let k = rng.below(4) as usize;
         req_case(cx, &[format!("addraw 12 {}", hex(&rng.bytes(k))), format!("cf {}", c), "getcf".into(), "raw 12".into()]);
+    }
+    // every ordered pair of named formats set one after the other on the same message (a wider id
+    // replaced by a narrower one and vice versa), and every id in its one- and two-byte wire form
+    for (i, &a) in cfs.iter().enumerate() {
+        for (j, &b) in cfs.iter().enumerate() {
+            if (i + j) % 3 == 0 || a > 255 && b <= 255 {
+                req_case(cx, &[format!("cf {}", a), format!("cf {}", b), "getcf".into(), "raw 12".into()]);
+            }
+        }
+    }
+    for id in 0..=65535u32 {
+        if id < 512 || cfs.contains(&(id as u64)) || id % 257 == 0 {
+            req_case(cx, &[format!("addraw 12 {}", hex(&[(id >> 8) as u8, id as u8])), "getcf".into()]);
+            if id < 256 {
+                req_case(cx, &[format!("addraw 12 {}", hex(&[id as u8])), "getcf".into()]);
+                req_case(cx, &[format!("addraw 12 {}", hex(&[0, 0, id as u8])), "getcf".into()]);
+            }
+        }
     }
     // raw content-format bytes through the getter
     for n in 0..=3usize {
